@@ -46,7 +46,11 @@ func (d *Pegnetd) GradeS(ctx context.Context, block *factom.EBlock) (graderStake
 			continue // no staker id: not a staking price record
 		}
 		stakerRCD := extids[1]
-		if d.Pegnet.IsIncludedTopPEGAddress(stakerRCD) {
+		included, err := d.Pegnet.IsIncludedTopPEGAddress(stakerRCD)
+		if err != nil {
+			return nil, err
+		}
+		if included {
 			// ignore bad opr errors
 			err = g.AddSPR(entry.Hash[:], extids, entry.Content)
 			if err != nil {
